@@ -32,6 +32,13 @@ func makeInternalWriteLog(writeLog writelog.WriteLog, annotations writelog.Annot
 			log = append(log, append([]byte{internalWriteLogKindDelete}, entry.Key...))
 		} else {
 			iptr := annotations[i].InsertedNode.DBInternal.(*dbPtr)
+			if iptr.isInvalid() {
+				// A clean leaf that is embedded in its parent's record and was loaded from the
+				// database: the key was written with the value it already has in the start root
+				// (a modified or new leaf has a fresh pointer). It has no record of its own to
+				// refer to, and the entry is a no-op for the transition, so it is left out.
+				continue
+			}
 			log = append(log, append([]byte{internalWriteLogKindInsert}, iptr.dbKey()...))
 		}
 	}
